@@ -88,7 +88,7 @@ def main():
                      "kind_free_text": "extractor + contract splicer + Verus driver (python3 stdlib only); Kani side crates for bounded parts"}],
         "checks": checks,
         "not_applicable": na,
-        "notes": "Contracts: /verif/contracts/<unit>/{unit.toml,prelude.rs (TRUSTED stand-ins),clauses.txt (spliced contracts)}. Exit codes: 0 held, 1 VIOLATION, 2 undecided (never an alarm).",
+        "notes": "Contracts: /verif/contracts/<unit>/{unit.toml,prelude.rs (TRUSTED stand-ins),clauses.txt (spliced contracts)}; contracts/ledger.json + contracts/pinned.json are regenerated by `python3 vcheck.py ledger` on the pinned tree. Exit codes: 0 held, 1 VIOLATION, 2 undecided (never an alarm: lost anchor, unsupported construct, rlimit, or a failed obligation whose proof scaffolding no longer applies to the changed code, DESIGN.md section 2.4). Known findings: known_findings.json (F3, property C03; demonstration in findings/F3_demo.diff). Independent seeded changes with what each check reported: seeded/<id>/ and seeded/SUMMARY.json; developer aids (not registered checks): tools/.",
     }
     json.dump(m, open(os.path.join(HERE, "MANIFEST.json"), "w"), indent=1)
     print("claimed:", [c["property_id"] for c in checks])
